@@ -201,7 +201,46 @@ def make_chemistry(spec):
             chem.addGas(ConstantGas(g['mol'], mix_ratio=float(g['mix'])))
         else:
             chem.addGas(ArrayGas(g['mol'], mix_ratio_array=np.asarray(g['mix'], float)))
+    if spec.get('chem_kind') == 'table':
+        return table_chemistry(chem)
     return chem
+
+
+def table_chemistry(inner):
+    """the same composition served by a chemistry written the way plugin chemistries are: a direct subclass of the base
+    class `Chemistry` that keeps its (ngas, nlayers) tables as attributes and relies on the base class's
+    get_gas_mix_profile, which then hands out VIEWS of those tables (a consumer that modifies what it is handed corrupts
+    the chemistry for every consumer after it)"""
+    from taurex.data.profiles.chemistry.chemistry import Chemistry
+
+    class TableChemistry(Chemistry):
+        def __init__(self):
+            super().__init__('TableChemistry')
+            self._inner = inner
+            self._act = self._inact = self._mu = None
+
+        def initialize_chemistry(self, nlayers=100, temperature_profile=None, pressure_profile=None,
+                                 altitude_profile=None):
+            self._inner.initialize_chemistry(nlayers, temperature_profile, pressure_profile, altitude_profile)
+            self._act = np.array(self._inner.activeGasMixProfile, float)
+            self._inact = np.array(self._inner.inactiveGasMixProfile, float)
+            self._mu = np.array(self._inner.muProfile, float)
+
+        activeGases = property(lambda self: list(self._inner.activeGases))
+        inactiveGases = property(lambda self: list(self._inner.inactiveGases))
+        activeGasMixProfile = property(lambda self: self._act)
+        inactiveGasMixProfile = property(lambda self: self._inact)
+        muProfile = property(lambda self: self._mu)
+
+        def fitting_parameters(self):
+            return self._inner.fitting_parameters()
+
+        def derived_parameters(self):
+            return self._inner.derived_parameters()
+
+        def write(self, output):
+            return self._inner.write(output)
+    return TableChemistry()
 
 
 def make_contribution(c):
